@@ -17,7 +17,11 @@ children and warnings that follows it, another list parent with its run, or any 
                        the parent itself is shown (last) only when the run has no element event.
 
 The event that ends a list's run is shown as a plain row even when it is a list parent itself: this is what the code does
-(`pretty_list_elems` returns it and `unmarshal` prints it without looking at it again) and the model keeps it.
+(`pretty_list_elems` returns it and `unmarshal` prints it without looking at it again) and the model keeps it.  It happens in
+decoder streams: the session area (`list[TPMS_AUTH_…]`) directly follows the buffer of a last `TPM2B` parameter, and its own row
+is then shown although it has elements.  What must not stand there is a byte buffer (it would be shown byte by byte):
+`c14_buffers_are_blocks` shows every byte-buffer parent heads a buffer block on streams satisfying `endsOk`, which is evaluated
+on every stream of every run (model side and, independently, on the implementation's events).
 -/
 namespace C14
 
@@ -404,6 +408,93 @@ theorem run_inRun (p : Path) : ∀ (rest : List Event) (e : Event), e ∈ rest.t
       · exact run_inRun p xs e h'
     · simp at h
 
+/-! ### every byte-buffer parent heads a buffer block -/
+
+theorem firstNonChild_drop (p : Path) : ∀ (rest : List Event) (c : MEvent) (rest' : List Event),
+    rest.dropWhile (inRun p) = .marshal c :: rest' → firstNonChild p rest = some c
+  | [], c, rest', h => by simp at h
+  | .warning w :: r, c, rest', h => by
+    have hd : (Event.warning w :: r).dropWhile (inRun p) = r.dropWhile (inRun p) := by simp [List.dropWhile_cons, inRun]
+    rw [hd] at h
+    simp only [firstNonChild]
+    exact firstNonChild_drop p r c rest' h
+  | .marshal x :: r, c, rest', h => by
+    simp only [firstNonChild]
+    split
+    · rename_i hc
+      have hd : (Event.marshal x :: r).dropWhile (inRun p) = r.dropWhile (inRun p) := by simp [List.dropWhile_cons, inRun, hc]
+      rw [hd] at h
+      exact firstNonChild_drop p r c rest' h
+    · rename_i hc
+      have hd : (Event.marshal x :: r).dropWhile (inRun p) = .marshal x :: r := by simp [List.dropWhile_cons, inRun, hc]
+      rw [hd] at h
+      simp only [List.cons.injEq, Event.marshal.injEq] at h
+      rw [h.1]
+
+theorem endsOk_suffix : ∀ (a b : List Event), endsOk (a ++ b) = true → endsOk b = true
+  | [], b, h => h
+  | .warning _ :: a, b, h => endsOk_suffix a b (by simpa [endsOk] using h)
+  | .marshal m :: a, b, h => by
+    simp only [List.cons_append, endsOk, Bool.and_eq_true] at h
+    exact endsOk_suffix a b h.2
+
+theorem blocksGo_lists : ∀ (fuel : Nat) (evs : List Event), endsOk evs = true →
+    ∀ b ∈ blocksGo fuel evs, ∀ m, b = .plain m → isBufParent m = false := by
+  intro fuel
+  induction fuel with
+  | zero => intro evs _ b hb; simp [blocksGo] at hb
+  | succ n ih =>
+    intro evs he b hb m hm
+    cases evs with
+    | nil => simp [blocksGo] at hb
+    | cons e rest =>
+      cases e with
+      | warning w =>
+        simp only [blocksGo, List.mem_cons] at hb
+        rcases hb with rfl | hb
+        · cases hm
+        · exact ih rest (by simpa [endsOk] using he) b hb m hm
+      | marshal p =>
+        simp only [endsOk, Bool.and_eq_true] at he
+        obtain ⟨he1, he2⟩ := he
+        simp only [blocksGo] at hb
+        split at hb
+        · rename_i hlp
+          have hb0 : ∀ run, (if p.ty = .listOf "BYTE" then Block.buffer p run else Block.elems p run) ≠ .plain m := by
+            intro run; split <;> simp
+          split at hb
+          · rename_i c rest' hd
+            simp only [List.mem_cons] at hb
+            rcases hb with rfl | rfl | hb
+            · exact absurd hm (hb0 _)
+            · simp only [Block.plain.injEq] at hm
+              subst hm
+              rw [if_pos hlp, firstNonChild_drop p.path rest c rest' hd] at he1
+              simpa using he1
+            · have hsplit := takeWhile_dropWhile (inRun p.path) rest
+              rw [hd] at hsplit
+              have h1 : endsOk (Event.marshal c :: rest') = true := endsOk_suffix _ _ (by rw [hsplit]; exact he2)
+              simp only [endsOk, Bool.and_eq_true] at h1
+              exact ih rest' h1.2 b hb m hm
+          · simp only [List.mem_singleton] at hb
+            subst hb
+            exact absurd hm (hb0 _)
+        · rename_i hlp
+          simp only [List.mem_cons] at hb
+          rcases hb with rfl | hb
+          · simp only [Block.plain.injEq] at hm
+            subst hm
+            have : isListParent p = false := by simpa using hlp
+            simp [isBufParent, this]
+          · exact ih rest he2 b hb m hm
+
+/-- **C14 (every byte buffer is one row)**: on a stream where no list's run is ended by a byte-buffer parent (`endsOk`, evaluated
+on every stream of every run on both sides, `K` line), the events shown on their own are never byte-buffer parents: every byte
+buffer heads a buffer block, i.e. is ONE row holding all its bytes -/
+theorem c14_buffers_are_blocks (evs : List Event) (h : endsOk evs = true) :
+    ∀ b ∈ blocksOf evs, ∀ m, b = .plain m → isBufParent m = false :=
+  blocksGo_lists _ evs h
+
 /-! ### not vacuous: the `TPML_DIGEST_VALUES` example has a list block (its run is the first element's structure
 event: the run ends at that element's first field, and what follows is shown event by event), a byte-buffer block whose run is the
 20 digest bytes, and events shown on their own; its 30 events give 9 rows (the list parent is hidden, 21 events share one row) -/
@@ -415,7 +506,12 @@ example : ((blocksOf exampleStream).any fun b => match b with
     ((blocksOf exampleStream).any fun b => match b with
       | .elems _ run => (kidsOf run).length == 1
       | _ => false) = true ∧
-    (render tableEnv 0 (blocksOf exampleStream)).length = 9 := by decide +kernel
+    (render tableEnv 0 (blocksOf exampleStream)).length = 9 ∧ endsOk exampleStream = true := by decide +kernel
+
+/-- a stream `endsOk` rules out: an empty list directly followed by a byte buffer, whose bytes the printer then shows one per row
+(a list of structures there is accepted: the session area after a response's last buffer) -/
+example : endsOk [.marshal ⟨rootPath ++ [⟨"a", none⟩], .listOf "X", none, "", 0⟩,
+    .marshal ⟨rootPath ++ [⟨"b", none⟩], .listOf "BYTE", none, "", 0⟩] = false := by decide +kernel
 
 set_option maxRecDepth 100000 in
 example : prettyRows tableEnv exampleStream = .ok (render tableEnv 0 (blocksOf exampleStream)) := by
